@@ -8,6 +8,7 @@ from checks.common import run_components, finish_standard, replay_standard
 COMPONENTS = [
     {'name': 'c10', 'oracle': False, 'what': 'public API under scheduled / failing readers and writers'},
     {'name': 'c10io', 'oracle': True, 'what': 'Model.ContainerIO (new, metadata getters, read_frame header over scheduled / failing readers: outcome, chunk table, I/O call counts)'},
+    {'name': 'c10glue', 'oracle': True, 'timeout': 3000, 'what': 'WebPDecoder::new + read_image (stills: VP8, VP8L, ALPH raw / lossless) over a scheduled reader failing at every I/O call index: outcome with error variant, pixels, call counts vs Model.ReadImageIO'},
     {'name': 'c10lossless', 'oracle': True, 'what': 'LosslessDecoder::decode_frame over a scheduled reader whose fill_buf fails at call k (every k, or a sample incl. first / last / last+1): outcome with exact error variant and call count vs Model.LosslessIO'},
     {'name': 'c10bits', 'oracle': True, 'what': 'BitReader scripts over a scheduled reader whose fill_buf fails at call k (every k of the fault-free run): values, outcome class, call count, final state vs Model.BitReaderIO'},
     {'name': 'c01model', 'oracle': True, 'extra': ['bitreader'], 'what': 'Model.BitReader scripts (fill / read_bits / consume / peek+consume) under fill_buf schedules vs BitReader through hooks'},
